@@ -34,15 +34,24 @@ STRENGTHENED = {
  # round 5
  "C04-10": "C04 world sessions: wrappers of stdin / clock / random / file / image extensions in child processes", "C04-12": "C04 zero-sign twin argument lists never sampled out",
  "C05-11": "interaction family O: code naming a register-held variable that outlives it (ported)", "C05-12": "interaction family N: int64 range ends under every changing operator",
- "C06-10": "C06 (delegated, see section 10.12)", "C06-11": "C06 (delegated)", "C06-12": "C06 (delegated)", "C07-11": "C07 image histories: every shape drawn repeatedly",
- "C08-12": "C08 layout worker: long blank runs / long tokens in every gap (delegated)", "C09-10": "C09 (delegated)", "C09-12": "C09 (delegated)",
+ "C06-10": "C06 Retype: print-alike twins (n / n.0) with a kind probe (delegated)", "C06-11": "C06 Frames: parameters surviving an inner call with the same names (delegated)", "C06-12": "C06 key chains around powers of two, twin addressing (delegated)", "C07-11": "C07 image histories: every shape drawn repeatedly",
+ "C08-12": "C08 layout worker: long blank runs / long tokens in every gap (delegated)", "C09-10": "C09 rewrite / recnest skeletons: every nesting kind in every rewritten body (delegated)", "C09-12": "C09 autoload skeleton: saved state / PreInput longer than the deadline (delegated)",
  "C10-10": "C10 parse-error failure kinds; a failing input that stops failing is a violation", "C10-11": "C10 deadline inside a pure recursive function + slowcall (ported)", "C10-12": "C10 break/continue reaching the end of a function, every failure kind x good kind",
  "C11-10": "C11 keys(m) as an observation", "C11-12": "C11 numbers at both ends of the int64 range in the random universe (MapRep NumEnd)",
  "C12-10": "C12 number notations (delegated)", "C12-11": "C12 operands in another call's frame (delegated)", "C12-12": "C12 containers grown across the size threshold (delegated)",
- "C14-10": "C14 (delegated)", "C14-11": "C14 (delegated)", "C15-10": "C15 (delegated)", "C16-11": "C16 interning across evaluator activity", "C18-10": "C18 (delegated)",
+ "C14-10": "C14 session steps observed (a failing auto-load is a disagreement, not an unusable case), NonLeafKeyMaps (delegated)", "C14-11": "C14 saves over what the history left, ShrinkCases (delegated)", "C15-10": "C15 Chunking.tla expansion pass: copied trees, function texts, 30 body forms (delegated)", "C16-11": "C16 interning across evaluator activity", "C18-10": "C18 AutoSave.tla Boot action; the next session started as the built binary (delegated)",
  "C19-10": "void on the final head (constant check is Identical since f12fe7e); C19 near-equal replacements cover the shape", "C19-12": "C19 ConstNames.tla: which names are constants",
  "C20-10": "C20 recorded definitions (Record action), leak into new indexes probed (delegated)", "C20-12": "C20 wide nodes: all 256 byte values under one node (delegated)",
- "C02-11": "C02 (delegated)", "C03-10": "C03 (delegated)",
+ "C02-11": "C02 FormatFnSession.tla: function values across one process (delegated)", "C03-10": "C03 rebuilt-tree route, repeated observations in two processes, maps family (delegated)",
+ # round 6
+ "C01-15": "interaction family Q: variadic extras kept across other calls", "C04-13": "C04 macro bodies x memoization", "C04-14": "C04 world sessions: failing-then-succeeding extension absorbed by catch",
+ "C05-13": "C05 recursion reaching exactly the depth limit, cache off", "C06-14": "C06 sessions observed after a timed-out input (delegated)", "C07-13": "C07 statements run by nested evaluators (ported)", "C07-14": "C07 loops left in every way under enclosing loops (ported)",
+ "C08-13": "C08 operator pairs x prefix operators printed in every mode", "C10-15": "C10 / Session.tla: the image extension's own state, refused calls mid-path",
+ "C11-13": "C11 ConstA: a map held by a constant (delegated)", "C11-14": "C11 ConstA: del on a constant map (delegated)", "C11-15": "C11 explicit capacity, ForkA / ViewA, earlier results unchanged (delegated)",
+ "C12-14": "C12 a text denotes one value: five re-reading routes; not-repeatable = violation (delegated)", "C12-15": "C12 sums of maps whose operands meet or overlap: 12 seams (delegated)",
+ "C15-13": "(ported; caught as before)", "C15-14": "C15 macro call sites that fail to expand without stopping the script", "C15-15": "C15 long flat newline-separated scripts per (statement end, statement start)",
+ "C16-13": "(ported; caught)", "C16-15": "C16 tokens first met after the table grew are shared from then on", "C17-15": "C17 every second child calls extensions.Init again",
+ "C19-13": "C19 children under a memory limit with a large constant array (delegated)", "C19-14": "C19 sessions observed after a timed-out input (delegated)", "C20-14": "C20 refused and half-failed definitions leave nothing in the index",
  "C13-7": "C13 argument pairs that print alike in compact form (delegated)", "C14-7": "C14 print -> modify existing element -> save again (delegated)", "C14-8": "C02 dot floats at statement boundaries (delegated)", "C14-9": "C02 source-level return/newline family (delegated)",
 }
 rows = []
